@@ -59,7 +59,7 @@ pub fn run_pty_case(case: &Case, env: &Env, long_sleep: bool) -> CaseOut {
     let mut child = match child {
         Ok(c) => c,
         Err(e) => {
-            out.viols.push(Viol::new("C20", "cannot-run-n2", format!("cannot run n2: {}", e)));
+            out.viols.push(Viol::new("INFRA", "cannot-run-n2", format!("cannot run n2: {}", e)));
             return out;
         }
     };
